@@ -83,6 +83,10 @@ pub struct Soup {
     /// (action index, vector): an interrupt of that vector is requested and polled for before that action, if
     /// CCR.I is clear then (every vector 1-31 outside the trap / call slots has its own RTE stub)
     pub irqs: Vec<(u16, u8)>,
+    /// (action index, address, byte): before that action something *outside* the instruction stream writes the
+    /// byte through the bus write path (what a `u8:` control line or a service of the emulator does between two
+    /// instructions) - mostly into the operand the previous instruction has just accessed
+    pub pokes: Vec<(u16, u32, u8)>,
 }
 
 /// vectors the soups raise interrupts on: 1-31 without TRAPA #1-#3 (9-11) and the @@aa:8 slot (16)
@@ -127,6 +131,10 @@ struct Gen<'s, 'e, 'v> {
     /// bytes whose value the reference does not constrain (call-frame top bytes, STC.W layout): the generator
     /// never reads them back, so the path it simulates is the path every correct implementation takes
     dc: std::collections::HashSet<u32>,
+    /// data access of the last executed instruction (address, size)
+    last_access: Option<(u32, u32)>,
+    pokes: Vec<(u16, u32, u8)>,
+    allow_pokes: bool,
 }
 
 const DATA_B: [u8; 8] = [0, 1, 2, 3, 8, 9, 10, 11];
@@ -262,6 +270,7 @@ impl<'s, 'e, 'v> Gen<'s, 'e, 'v> {
                 if let Class::Impl(i) = st.decoded.class {
                     self.forms.push(i.form());
                 }
+                self.last_access = st.accesses.iter().rev().find(|a| a.kind == rx::AccKind::Data).map(|a| (a.addr & MASK24, a.size));
                 self.path += 1;
             }
         }
@@ -504,7 +513,37 @@ impl<'s, 'e, 'v> Gen<'s, 'e, 'v> {
         };
         self.try_emit(&[i])
     }
+    /// an external write into the operand the last instruction accessed (only where that is plain zone memory)
+    fn maybe_poke(&mut self, num: u32, den: u32) {
+        if !self.allow_pokes || !self.e.chance(num, den) {
+            return;
+        }
+        if let Some((a, size)) = self.last_access {
+            let t = a.wrapping_add(self.e.below(size.max(1)));
+            if zone_of(t, 1).is_some() && !self.dc.contains(&t) && self.pokes.len() < 24 {
+                let v = self.e.u8();
+                self.s.poke(t, v);
+                self.pokes.push((self.path as u16, t, v));
+            }
+        }
+    }
     fn gen_bit(&mut self) -> bool {
+        // the "test, then set or clear" idiom on one memory operand - with, now and then, an external write into
+        // that operand between the two instructions
+        if self.e.chance(1, 6) {
+            let t = target_in(self.e, 2, 1);
+            let tgt = BitTgt::A8((t & 0xff) as u8);
+            let n = self.e.below(8) as u8;
+            let first = self.e.pick(&[BitOp::Btst, BitOp::Btst, BitOp::Bld, BitOp::Band]);
+            if !self.try_emit(&[Insn::Bit { op: first, sel: BitSel::Imm(n), tgt }]) {
+                return false;
+            }
+            self.maybe_poke(1, 2);
+            let second = self.e.pick(&[BitOp::Bset, BitOp::Bclr, BitOp::Bnot, BitOp::Bst]);
+            let m = self.e.below(8) as u8;
+            let _ = self.try_emit(&[Insn::Bit { op: second, sel: BitSel::Imm(m), tgt }]);
+            return true;
+        }
         let op = self.e.pick(&BitOp::ALL);
         let sel = if op.has_reg_form() && self.e.chance(1, 2) { BitSel::Reg(self.e.below(16) as u8) } else { BitSel::Imm(self.e.below(8) as u8) };
         match self.e.below(3) {
@@ -795,12 +834,13 @@ pub fn build_irq(e: &mut Ent, fl: Flavor, with_irqs: bool) -> Soup {
             pre.map.insert(a + i as u32, *b);
         }
     }
+    let mut pokes: Vec<(u16, u32, u8)> = vec![];
     let (code, path_len, forms, stop) = {
         let mut s = RefState::new(&pre);
         s.er = er;
         s.ccr = ccr;
         s.pc = base;
-        let mut g = Gen { s, e, code: vec![], base, leaf, handler, pushed: vec![], path: 0, forms: vec![], dc: Default::default() };
+        let mut g = Gen { s, e, code: vec![], base, leaf, handler, pushed: vec![], path: 0, forms: vec![], dc: Default::default(), last_access: None, pokes: vec![], allow_pokes: !with_irqs };
         let w = fl.weights();
         let total: u32 = w.iter().sum();
         let mut emitted = 0;
@@ -823,10 +863,14 @@ pub fn build_irq(e: &mut Ent, fl: Flavor, with_irqs: bool) -> Soup {
             };
             if ok {
                 emitted += 1;
+                if cat == 1 || cat == 4 {
+                    g.maybe_poke(1, 8);
+                }
             }
         }
         let _ = g.handler;
         let stop = g.cursor();
+        pokes = std::mem::take(&mut g.pokes);
         (g.code, g.path, g.forms, stop)
     };
     let mut image = vec![(base, code)];
@@ -844,7 +888,7 @@ pub fn build_irq(e: &mut Ent, fl: Flavor, with_irqs: bool) -> Soup {
             }
         }
     }
-    Soup { prog: Prog { image, er, ccr, pc: base, bus }, stop, path_len, forms, irqs }
+    Soup { prog: Prog { image, er, ccr, pc: base, bus }, stop, path_len, forms, irqs, pokes }
 }
 
 pub struct SoupRun {
@@ -862,6 +906,10 @@ pub fn run_soup(emu: &mut Emu, prog: &Prog, stop: u32, quirks: &[Quirk], charge:
 }
 
 pub fn run_soup_irq(emu: &mut Emu, prog: &Prog, stop: u32, quirks: &[Quirk], charge: bool, irqs: &[(u16, u8)]) -> Result<SoupRun, String> {
+    run_soup_full(emu, prog, stop, quirks, charge, irqs, &[])
+}
+
+pub fn run_soup_full(emu: &mut Emu, prog: &Prog, stop: u32, quirks: &[Quirk], charge: bool, irqs: &[(u16, u8)], pokes: &[(u16, u32, u8)]) -> Result<SoupRun, String> {
     let opts = LsOpts { quirks, max_steps: 400, full_dram: false, compare_memory: true };
     let cfg: BusCfg = prog.bus;
     let mut violation: Option<String> = None;
@@ -871,7 +919,15 @@ pub fn run_soup_irq(emu: &mut Emu, prog: &Prog, stop: u32, quirks: &[Quirk], cha
     todo.reverse();
     let mut taken = 0usize;
     let mut last_was_irq = false;
+    let mut poke_todo: Vec<(u16, u32, u8)> = pokes.to_vec();
+    poke_todo.reverse();
     let out = lockstep(emu, prog, &opts, &mut |v: &View| {
+        if let Some(&(at, a, b)) = poke_todo.last() {
+            if at as usize <= v.idx {
+                poke_todo.pop();
+                return Ctl::Patch(a, vec![b]);
+            }
+        }
         // an interrupt before this action? (requests are only raised while I is clear: then the poll must accept
         // it at once, through its own vector - the lockstep compares frame, SP, CCR and PC with the reference)
         if std::env::var("H8DBG").is_ok() {
@@ -949,7 +1005,7 @@ pub fn phase_irq(ctx: &Ctx, property: &'static str, fl: Flavor, n: u32, salt: u6
         set_shrink_iters(600);
         let _ = run_prop(mix(ctx.seed, salt + shard as u64), (n / nshards as u32).max(1), &ent, |raw, shrinking| {
             let soup = build_irq(&mut Ent::new(raw), fl, with_irqs);
-            let r = run_soup_irq(&mut w.emu.borrow_mut(), &soup.prog, soup.stop, &quirks, charge, &soup.irqs);
+            let r = run_soup_full(&mut w.emu.borrow_mut(), &soup.prog, soup.stop, &quirks, charge, &soup.irqs, &soup.pokes);
             let mut st = w.stats.borrow_mut();
             match r {
                 Ok(run) => {
@@ -962,6 +1018,9 @@ pub fn phase_irq(ctx: &Ctx, property: &'static str, fl: Flavor, n: u32, salt: u6
                         st.class_n(&format!("soup ({}): instructions executed back to back", fl.name()), run.steps as u64);
                         if charge {
                             st.class_n(&format!("soup ({}): charges compared", fl.name()), run.charges_compared as u64);
+                        }
+                        if !soup.pokes.is_empty() {
+                            st.class_n("soup: external writes (bus write path) between two instructions", soup.pokes.len() as u64);
                         }
                         if with_irqs {
                             st.class_n(&format!("soup ({}): interrupts accepted between two instructions", fl.name()), run.irqs_taken as u64);
@@ -999,7 +1058,7 @@ pub fn phase_irq(ctx: &Ctx, property: &'static str, fl: Flavor, n: u32, salt: u6
                         Ok(())
                     } else {
                         st.failures.clear();
-                        st.fail(Failure { signature: sig.clone(), detail: m, case: json!({"kind": "soup", "prog": soup.prog.to_json(), "stop": soup.stop, "charge": charge, "forms": soup.forms, "irqs": soup.irqs.iter().map(|(a, v)| json!([a, v])).collect::<Vec<_>>()}) });
+                        st.fail(Failure { signature: sig.clone(), detail: m, case: json!({"kind": "soup", "prog": soup.prog.to_json(), "stop": soup.stop, "charge": charge, "forms": soup.forms, "irqs": soup.irqs.iter().map(|(a, v)| json!([a, v])).collect::<Vec<_>>(), "pokes": soup.pokes.iter().map(|(i, a, v)| json!([i, a, v])).collect::<Vec<_>>()}) });
                         Err(sig)
                     }
                 }
@@ -1048,7 +1107,8 @@ pub fn replay(ctx: &Ctx, property: &str, v: &Value) -> i32 {
             eprintln!("ref {:3} {:06x} {:?} -> {:?} er={:08x?} ccr={:02x} dcr={:x?} dcm={:x?} dcc={:02x}", k, pc, st.decoded.class, st.outcome, s.er, s.ccr, st.dont_care_reg, st.dont_care_mem, st.dont_care_ccr);
         }
     }
-    match run_soup_irq(&mut emu, &prog, stop as u32, &quirks, charge, &irqs) {
+    let pokes: Vec<(u16, u32, u8)> = case.get("pokes").and_then(|a| a.as_array()).map(|a| a.iter().filter_map(|p| Some((p.get(0)?.as_u64()? as u16, p.get(1)?.as_u64()? as u32, p.get(2)?.as_u64()? as u8))).collect()).unwrap_or_default();
+    match run_soup_full(&mut emu, &prog, stop as u32, &quirks, charge, &irqs, &pokes) {
         Ok(_) => {
             println!("replay {}: soup passes", property);
             0
